@@ -252,6 +252,27 @@ def fields_of_type(crate, adt, pred):
     return [f["name"] for f in a["variants"][0]["fields"] if pred(f["ty"])]
 
 
+def stream_stepper(crate):
+    """The function that pulls one item from the wrapped byte iterator of the stream reader and keeps the line / column
+    counters: `LineColIterator::next` on the reviewed tree.  Found by role: the only function of lexpr's parse module
+    that calls Iterator::next on `&mut I` (the wrapper's type parameter) or on `&mut io::Bytes<R>` itself.  None when
+    there is not exactly one (then the rules that need it fail closed)."""
+    found = []
+    for f in crate.fns:
+        if not f.file.startswith("lexpr/src/parse/") or f.kind == "closure":
+            continue
+        for bi, t in f.calls():
+            if f.is_cleanup(bi):
+                continue
+            from . import facts as _F
+            if "std::iter::Iterator::next" in _F.callee_names(t):
+                tys = t.get("arg_tys") or []
+                if tys and tys[0] in ("&mut I", "&mut std::io::Bytes<R>"):
+                    found.append(f)
+                    break
+    return found[0] if len(found) == 1 else None
+
+
 _FWD = {}
 
 
